@@ -461,24 +461,24 @@ SUBS = [
              "0-dim tensor; all *_payoff functions for call and put, european_forward_start_payoff, realized_variance/volatility "
              "against exact Fraction / mpmath definitions plus the ordering relations. Non-trivial: some price ties with the "
              "strike or some path has its max/min strictly inside the path.",
-        strategy=lambda tier: functional_case(), examples={"quick": 4000, "thorough": 40000}),
+        strategy=lambda tier: functional_case(), examples={"quick": 10000, "thorough": 120000}),
     Sub("options", check_options,
         rule="same paths written into BrownianStock.spot with register_buffer; the four option classes (call and put, explicit "
              "and default arguments) payoff_fn()/payoff() vs the exact contract, relations between classes, and 0-4 clauses "
              "(affine, cap, floor, knock-out on path max, square) registered under unique names on one of them: payoff() must "
              "equal the clauses applied in registration order. Non-trivial: tie with the strike, interior extreme, or >=2 clauses.",
-        strategy=lambda tier: options_case(), examples={"quick": 3000, "thorough": 30000}),
+        strategy=lambda tier: options_case(), examples={"quick": 8000, "thorough": 100000}),
     Sub("forward_start", check_forward_start,
         rule="EuropeanForwardStartOption on written paths, T in [1,8]; start = (k+frac)*dt with frac in {0, .001, .25, .49, .5, "
              ".51, .75, .999} or the k-fold float sum of dt; oracle max(S_T/S_i-K,0) for i = floor(start/dt) (either neighbour "
              "when the float ratio is within 8 ulps of an integer); clauses as above. Non-trivial: the start index is observable "
              "(prices next to it differ), or the ratio ties with the strike, or >=2 clauses.",
-        strategy=lambda tier: forward_start_case(), examples={"quick": 3000, "thorough": 30000}),
+        strategy=lambda tier: forward_start_case(), examples={"quick": 6000, "thorough": 80000}),
     Sub("variance_swap", check_variance_swap,
         rule="VarianceSwap on written paths, T in [2,8], dt from the usual grid, strikes incl. 0 and the default; oracle "
              "mean(log-return^2)/dt - K in 40-digit mpmath with the a-priori float error bound; clauses as above. Non-trivial: "
              "a non-constant path with a non-zero strike, or >=2 clauses.",
-        strategy=lambda tier: variance_swap_case(), examples={"quick": 3000, "thorough": 30000}),
+        strategy=lambda tier: variance_swap_case(), examples={"quick": 6000, "thorough": 80000}),
 ]
 
 META = {
